@@ -146,6 +146,15 @@ func (lr *lockRule) callerHolds(f *ssa.Function, root ssa.Value, mu string, writ
 		}
 		arg := s.Common().Args[idx]
 		g := s.Parent()
+		if g.Synthetic != "" {
+			// a method value (bound-method wrapper): it is called where the closure is
+			// used; accepted when every place that creates it holds the lock on the
+			// receiver there and keeps it until the function returns
+			if !lr.boundHeld(g, mu, write, cp) {
+				return false
+			}
+			continue
+		}
 		switch {
 		case cp[g] || cp[rootFn(g)]:
 		case isFresh(arg):
@@ -156,6 +165,39 @@ func (lr *lockRule) callerHolds(f *ssa.Function, root ssa.Value, mu string, writ
 		}
 	}
 	return true
+}
+
+// boundHeld: every creation site of the bound-method closure w holds mu on the
+// bound receiver, from the creation to every return of the creating function.
+func (lr *lockRule) boundHeld(w *ssa.Function, mu string, write bool, cp map[*ssa.Function]bool) bool {
+	n := 0
+	for _, f := range lr.e.RepoFuncsSorted() {
+		for _, b := range f.Blocks {
+			for _, in := range b.Instrs {
+				mc, ok := in.(*ssa.MakeClosure)
+				if !ok || mc.Fn != ssa.Value(w) || len(mc.Bindings) == 0 {
+					continue
+				}
+				n++
+				if cp[f] || cp[rootFn(f)] {
+					continue
+				}
+				recv := mc.Bindings[0]
+				lf := lr.locks(f)
+				if !lf.Holds(mc, recv, mu, write) {
+					return false
+				}
+				for _, rb := range f.Blocks {
+					if rt, isR := rb.Instrs[len(rb.Instrs)-1].(*ssa.Return); isR && lf.Reached(rb) {
+						if !lf.Holds(rt, recv, mu, write) {
+							return false
+						}
+					}
+				}
+			}
+		}
+	}
+	return n > 0
 }
 
 func cLockDiscipline(e *Env) {
